@@ -315,7 +315,7 @@ Section Write.
     intros r t e0 e' Hr HrR Ht He0 He'. apply Hsub in Ht.
     assert (Hr0 : In r (hd [] ll ++ M0)) by (apply in_or_app; left; exact Hr).
     assert (Hold : forall t0, In t0 M0 -> In e' t0 -> eseq e0 < eseq e').
-    { intros t0 Ht0 He't0. apply (g_l0 _ _ Hg (hd [] ll ++ M0) r t0 e0 e'); auto; [apply vlay_nth_0; exact w_ne|apply in_or_app; right; exact Ht0]. }
+    { intros t0 Ht0 He't0. apply (g_l0 _ _ Hg (hd [] ll ++ M0) r t0 e0 e'); [apply vlay_nth_0; exact w_ne|exact Hr0|exact HrR|apply in_or_app; right; exact Ht0|exact (Hd _ Ht0)|exact He0|exact He't0]. }
     apply in_app_or in Ht as [Ht|[<-|[]]]; [apply in_app_or in Ht as [Ht|[<-|[]]]|destruct He'].
     - apply (Hold t); [apply in_or_app; left; exact Ht|exact He'].
     - apply mt_put_in in He' as [->|He']; [apply w_gt; eapply w_l0_ents; eauto|].
@@ -380,3 +380,398 @@ Section Write.
     - exact I.
   Qed.
 End Write.
+
+(* ---------- flush ---------- *)
+
+Lemma vlay_add_l0 ll snap rest : ll <> [] -> vlay (add_l0 snap ll) rest = vlay ll (snap ++ rest).
+Proof. destruct ll as [|l0 ll]; [congruence|]. intros _. unfold vlay. cbn. rewrite app_assoc. reflexivity. Qed.
+
+Lemma removelast_app_in {A} (a b : list A) x : b <> [] -> In x a -> In x (removelast (a ++ b)).
+Proof. intros Hb Hx. rewrite removelast_app by exact Hb. apply in_or_app. left. exact Hx. Qed.
+Lemma removelast_app_in2 {A} (a b : list A) x : b <> [] -> In x (removelast b) -> In x (removelast (a ++ b)).
+Proof. intros Hb Hx. rewrite removelast_app by exact Hb. apply in_or_app. right. exact Hx. Qed.
+
+Lemma ents_add_l0 ll snap e : ents ll e -> ents (add_l0 snap ll) e.
+Proof.
+  destruct ll as [|l0 ll]; [intros (l & t & [] & _)|]. cbn. rewrite !ents_cons.
+  intros [(t & Ht & He)|H]; [left; exists t; split; [apply in_or_app; left; exact Ht|exact He]|right; exact H].
+Qed.
+
+Lemma f1_inv M ll sq c r : Inv M ll sq FIdle c r -> Inv M ll sq (FSwap (removelast M)) c r.
+Proof.
+  intros H. destruct H. constructor; auto. intros snap [= <-]. exists [last M []]. split; [apply app_removelast_last; exact i_mts0|discriminate].
+Qed.
+
+Lemma f2_inv snap rest ll sq c r :
+  rest <> [] -> Inv (snap ++ rest) ll sq (FSwap snap) c r -> Inv rest (add_l0 snap ll) sq FIdle c r.
+Proof.
+  intros Hrest H. destruct H. pose proof (len_ne _ i_len0) as Hne. constructor.
+  - rewrite vlay_add_l0 by exact Hne. exact i_ll0.
+  - destruct ll; [congruence|exact i_len0].
+  - exact Hrest.
+  - intros l t Hl Ht. destruct ll as [|l0 ll]; [congruence|]. cbn in Hl. destruct Hl as [<-|Hl].
+    + apply in_app_or in Ht as [Ht|Ht]; [apply (i_real0 l0); [left; reflexivity|exact Ht]|].
+      apply i_sealed0. apply removelast_app_in; assumption.
+    + apply (i_real0 l); [right; exact Hl|exact Ht].
+  - intros t Ht. apply i_sealed0. apply removelast_app_in2; assumption.
+  - rewrite vlay_add_l0 by exact Hne. exact i_seq0.
+  - intros s [=].
+  - intros cs Hc. rewrite vlay_add_l0 by exact Hne. destruct (i_ct0 cs Hc) as [H1 H2]. split; [exact H1|].
+    intros t Ht. apply H2. apply in_or_app. right. exact Ht.
+  - destruct r as [|k [e|]|p mres]; cbn [rd_inv] in *.
+    + exact I.
+    + rewrite vlay_add_l0 by exact Hne. exact i_rd0.
+    + intros t e Ht. apply i_rd0. apply in_or_app. right. exact Ht.
+    + rewrite vlay_add_l0 by exact Hne. destruct i_rd0 as (H1 & H2 & H3). split; [exact H1|]. split; [exact H2|].
+      intros k m Hp Hg. destruct (H3 k m Hp Hg) as [H|H]; [left; exact H|right; apply ents_add_l0; exact H].
+Qed.
+
+(* ---------- compaction ---------- *)
+
+Section RemReal.
+  Variable tsize : table -> N.
+
+  Lemma pick_levels_sub maxamp asc elig base r :
+    In r (concat (pick_levels tsize maxamp asc elig base)) -> exists l, In l asc /\ In r l.
+  Proof.
+    revert elig. induction asc as [|l asc IH]; intros elig H; [destruct H|]. cbn [pick_levels] in H.
+    destruct (pick_tables tsize maxamp (sort_age l) elig base) as [[p e] d] eqn:E.
+    destruct (pick_tables_prefix _ _ _ _ _ _ _ _ E) as ((q & Hq) & _ & _).
+    assert (Hp : In r p -> In r l) by (intros Hr; apply sort_age_in; apply (in_firstn' q); rewrite <- Hq; exact Hr).
+    destruct d; cbn [concat] in H; apply in_app_or in H as [H|H].
+    - exists l. split; [left; reflexivity|auto].
+    - rewrite concat_map_nil in H. destruct H.
+    - exists l. split; [left; reflexivity|auto].
+    - destruct (IH _ H) as (l' & H1 & H2). exists l'. split; [right; exact H1|exact H2].
+  Qed.
+
+  Lemma nth_in_real (ll : levels) i r : In r (nth i ll []) -> exists l, In l ll /\ In r l.
+  Proof.
+    intros H. destruct (nth_in_or_default i ll []) as [H1|H1]; [exists (nth i ll []); auto|]. rewrite H1 in H. destruct H.
+  Qed.
+
+  Lemma compact_rem_real cfg mcl ll cs mcl' :
+    ll <> [] -> compact tsize cfg mcl ll = (Some cs, mcl') -> forall r, In r (cs_rem cs) -> exists l, In l ll /\ In r l.
+  Proof.
+    intros Hne H r Hr. unfold compact in H.
+    destruct (Nat.eqb mcl 0 && (N.of_nat (length (hd [] ll)) <? c_trigger cfg)); [discriminate|].
+    destruct (c_maxamp cfg <? pct (eligible tsize ll) (base_size tsize ll)).
+    - injection H as <- <-. unfold major in Hr. cbn [cs_rem] in Hr. apply in_app_or in Hr as [Hr|Hr].
+      + apply pick_levels_sub in Hr as (l & Hl & Hr). exists l. split; [|exact Hr]. apply in_rev in Hl.
+        rewrite (app_removelast_last [] Hne). apply in_or_app. left. exact Hl.
+      + exists (last ll []). split; [|exact Hr]. rewrite (app_removelast_last [] Hne) at 2. apply in_or_app. right. left. reflexivity.
+    - assert (Hml : forall i, In r (cs_rem (merge_levels cfg ll i)) -> exists l, In l ll /\ In r l).
+      { intros i Hi. unfold merge_levels in Hi. cbn in Hi. apply in_app_or in Hi as [Hi|Hi]; eapply nth_in_real; eauto. }
+      unfold minor in H. destruct mcl as [|k].
+      + injection H as <- <-. eauto.
+      + destruct (minor_loop_spec _ _ _ _ _ _ _ H) as (i & _ & -> & _). eauto.
+  Qed.
+End RemReal.
+
+Lemma mem_not_rem ll M (R : list table) :
+  ll <> [] -> LLInv (vlay ll M) -> (forall l t, In l ll -> In t l -> t <> []) ->
+  (forall r, In r R -> exists l, In l ll /\ In r l) -> forall t, In t M -> ~ In t R.
+Proof.
+  intros Hne Hv Hreal HR t Ht HtR. destruct (HR t HtR) as (l & Hl & Htl). pose proof (Hreal l t Hl Htl) as Hnil.
+  destruct t as [|e t]; [congruence|]. apply In_nth_error in Hl as (j & Hj). destruct j as [|j].
+  - destruct ll as [|l0 ll]; [congruence|]. cbn in Hj. injection Hj as ->.
+    pose proof (v_sep _ Hv _ eq_refl) as Hs. cbn [hd] in Hs. apply sep_app in Hs as (_ & _ & Hs).
+    specialize (Hs (e :: t) (e :: t) e e Htl Ht (or_introl eq_refl) (or_introl eq_refl)). lia.
+  - pose proof (v_ord _ Hv 0%nat (S j) _ l (e :: t) (e :: t) e e ltac:(lia) (vlay_nth_0 ll M Hne) ltac:(rewrite vlay_nth_S; exact Hj)
+                  ltac:(apply in_or_app; right; exact Ht) Htl (or_introl eq_refl) (or_introl eq_refl) eq_refl). lia.
+Qed.
+
+Lemma c1_inv cfg M ll sq f c r mcl cs mcl' :
+  cfg_ok cfg -> (c = CIdle \/ c = CIter) -> Inv M ll sq f c r ->
+  compact table_size (d_comp cfg) mcl ll = (Some cs, mcl') -> Inv M ll sq f (CSwap cs) r.
+Proof.
+  intros (_ & Ht & Htr) Hc H Hcomp. destruct H. pose proof (len_ne _ i_len0) as Hne. constructor; auto.
+  intros cs' [= <-]. split.
+  - eapply compact_good; eauto. intros t Ht0. apply (i_real0 (hd [] ll)); [apply hd_in; exact Hne|exact Ht0].
+  - eapply mem_not_rem; eauto. eapply compact_rem_real; eauto.
+Qed.
+
+Lemma c_idle_inv M ll sq f c c' r : (forall cs, c' <> CSwap cs) -> Inv M ll sq f c r -> Inv M ll sq f c' r.
+Proof. intros Hc H. destruct H. constructor; auto. intros cs E. exfalso. exact (Hc cs E). Qed.
+
+Lemma c2_inv M ll sq f cs r : Inv M ll sq f (CSwap cs) r -> Inv M (apply_cs cs ll) sq f CIter r /\ view (vlay (apply_cs cs ll) M) = view (vlay ll M).
+Proof.
+  intros H. destruct H. pose proof (len_ne _ i_len0) as Hne. destruct (i_ct0 cs eq_refl) as [Hg Hd].
+  pose proof (g_lvl _ _ Hg) as HT. rewrite vlay_length in HT by exact Hne.
+  assert (Hav : apply_cs cs (vlay ll M) = vlay (apply_cs cs ll) M) by (apply apply_vlay; [exact Hne|lia|exact Hd]).
+  assert (Hview : view (vlay (apply_cs cs ll) M) = view (vlay ll M)) by (rewrite <- Hav; apply apply_view; assumption).
+  assert (Hne' : apply_cs cs ll <> []) by (apply len_ne; rewrite length_apply; exact i_len0).
+  split; [|exact Hview]. constructor.
+  - rewrite <- Hav. apply apply_LLInv; assumption.
+  - rewrite length_apply. exact i_len0.
+  - exact i_mts0.
+  - intros l t Hl Ht. apply In_nth_error in Hl as (i & Hi). rewrite nth_error_apply in Hi.
+    destruct (nth_error ll i) as [l1|] eqn:E; [|discriminate]. cbn in Hi. injection Hi as <-.
+    apply in_newlvl in Ht. destruct Ht as [[Ht _]|[_ Ht]].
+    + apply (i_real0 l1); [eapply nth_error_In; exact E|exact Ht].
+    + apply (g_add _ _ Hg). exact Ht.
+  - exact i_sealed0.
+  - intros e He. rewrite <- Hav in He. apply i_seq0. eapply ents_apply_sub; eauto.
+  - exact i_ft0.
+  - intros cs' [=].
+  - destruct r as [|k [e|]|p mres]; cbn [rd_inv] in *.
+    + exact I.
+    + rewrite Hview. exact i_rd0.
+    + exact i_rd0.
+    + rewrite Hview. destruct i_rd0 as (H1 & H2 & H3). split; [exact H1|]. split; [exact H2|].
+      intros k m Hp Hgm. destruct (H3 k m Hp Hgm) as [H|H]; [left; exact H|right].
+      destruct H as (l & t & Hl & Ht & Hm). apply In_nth_error in Hl as (i & Hi).
+      destruct (tmem t (cs_rem cs)) eqn:HR; [apply tmem_in in HR|apply tmem_false in HR].
+      * destruct (rem_entry_dominated _ _ Hg _ _ HR Hm) as (a & m' & Ha & Hm' & Hk' & Hs').
+        destruct (nth_error ll (cs_level cs)) as [lT|] eqn:ET; [|apply nth_error_None in ET; lia].
+        assert (Hin' : ents (apply_cs cs ll) m').
+        { apply ents_nth. exists (cs_level cs), (newlvl cs (cs_level cs) lT), a. split; [rewrite nth_error_apply, ET; reflexivity|].
+          split; [|exact Hm']. unfold newlvl. rewrite Nat.eqb_refl. apply in_or_app. right. exact Ha. }
+        assert (Hold : ents (vlay ll M) m').
+        { eapply ents_apply_sub; eauto. rewrite Hav. apply ents_vlay; [exact Hne'|left; exact Hin']. }
+        destruct (Mx_get_spec _ _ _ _ (ents_view _) Hgm) as (G1 & G2 & G3).
+        assert (m' = m); [|subst m'; exact Hin'].
+        apply (LLInv_uniq _ i_ll0); [exact Hold|exact G1|exact Hk'|]. specialize (G3 m' Hold ltac:(congruence)). lia.
+      * apply ents_nth. exists i, (newlvl cs i l), t. split; [rewrite nth_error_apply, Hi; reflexivity|].
+        split; [apply kept_in_newlvl; assumption|exact Hm].
+Qed.
+
+(* ---------- reads ---------- *)
+
+Lemma set_rd_inv M ll sq f c r r' : rd_inv r' M ll -> Inv M ll sq f c r -> Inv M ll sq f c r'.
+Proof. intros Hr H. destruct H. constructor; auto. Qed.
+
+Lemma get1_inv M ll sq f c k : Inv M ll sq f c RNone -> Inv M ll sq f c (RGet k (ml_get k M)).
+Proof.
+  intros H. apply (set_rd_inv _ _ _ _ _ RNone); [|exact H]. destruct H. pose proof (len_ne _ i_len0) as Hne.
+  assert (Hsep : sep (hd [] ll ++ M)) by (apply (v_sep _ i_ll0); apply vlay_nth_0; exact Hne).
+  assert (Hs : forall t, In t M -> sorted t).
+  { intros t Ht. apply (v_sorted _ i_ll0 (hd [] ll ++ M)); [left; reflexivity|apply in_or_app; right; exact Ht]. }
+  pose proof (ml_get_spec (hd [] ll) M k Hsep Hs) as Hm. unfold rd_inv. destruct (ml_get k M) as [e|].
+  - destruct Hm as ((x & Hx & Hex) & Hk & Hmax). subst k. apply view_max; [exact i_ll0| |].
+    + apply ents_vlay; [exact Hne|]. right. exists x. auto.
+    + intros y Hy Hyk. apply ents_nth in Hy as (i & l & t & Hi & Ht & Hyt). destruct i as [|i].
+      * rewrite vlay_nth_0 in Hi by exact Hne. injection Hi as <-. eapply Hmax; eauto.
+      * assert (eseq y < eseq e); [|lia].
+        apply (v_ord _ i_ll0 0%nat (S i) (hd [] ll ++ M) l x t e y); [lia|apply vlay_nth_0; exact Hne|exact Hi|apply in_or_app; right; exact Hx|exact Ht|exact Hex|exact Hyt|symmetry; exact Hyk].
+  - exact Hm.
+Qed.
+
+Lemma get2_ok M ll sq f c k m0 :
+  Inv M ll sq f c (RGet k m0) ->
+  match m0 with Some e => Some e | None => ll_get k ll end = tbl_get k (view (vlay ll M)).
+Proof.
+  intros H. destruct H. pose proof (len_ne _ i_len0) as Hne. unfold rd_inv in i_rd0. destruct m0 as [e|]; [symmetry; exact i_rd0|].
+  pose proof (LLInv_real _ _ i_ll0 Hne) as Hreal. rewrite ll_get_ok by exact Hreal.
+  destruct (tbl_get k (view ll)) as [m|] eqn:G.
+  - destruct (Mx_get_spec _ _ _ _ (ents_view _) G) as (G1 & G2 & G3). subst k. symmetry. apply view_max; [exact i_ll0| |].
+    + apply ents_vlay; [exact Hne|left; exact G1].
+    + intros y Hy Hyk. apply ents_vlay in Hy; [|exact Hne]. destruct Hy as [Hy|(t & Ht & Hyt)]; [auto|].
+      exfalso. eapply i_rd0; eauto.
+  - symmetry. apply view_none. intros y Hy Hyk. apply ents_vlay in Hy; [|exact Hne]. destruct Hy as [Hy|(t & Ht & Hyt)].
+    + destruct (ents_view ll) as (_ & _ & H3). destruct (H3 y Hy) as (z & Hz & _). rewrite Hyk in Hz. congruence.
+    + eapply i_rd0; eauto.
+Qed.
+
+Lemma scan1_inv M ll sq f c p : Inv M ll sq f c RNone -> Inv M ll sq f c (RScan p (ml_scan_entries p M)).
+Proof.
+  intros H. apply (set_rd_inv _ _ _ _ _ RNone); [|exact H]. destruct H. pose proof (len_ne _ i_len0) as Hne.
+  unfold rd_inv, ml_scan_entries.
+  pose proof (Mx_merge_all (map (tbl_scan p) M)) as HMx.
+  assert (Hsrc : forall e, In e (merge_all (map (tbl_scan p) M)) -> has_prefix p e = true /\ exists t, In t M /\ In e t).
+  { intros e He. destruct HMx as (_ & H2 & _). destruct (H2 e He) as (s & Hs & Hes). apply in_map_iff in Hs as (t & <- & Ht).
+    apply filter_In in Hes as [Hes Hp]. split; [exact Hp|exists t; auto]. }
+  split; [apply merge_all_sorted|]. split.
+  - intros e He. destruct (Hsrc e He) as (Hp & t & Ht & Het). split; [exact Hp|].
+    assert (Hents : ents (vlay ll M) e) by (apply ents_vlay; [exact Hne|right; exists t; auto]).
+    destruct (ents_view (vlay ll M)) as (_ & _ & H3). destruct (H3 e Hents) as (m & Hm & Hle). exists m. repeat split; auto.
+    intros Heq. destruct (Mx_get_spec _ _ _ _ (ents_view _) Hm) as (G1 & G2 & _). apply (LLInv_uniq _ i_ll0); auto.
+  - intros k m Hp Hg. destruct (Mx_get_spec _ _ _ _ (ents_view _) Hg) as (G1 & G2 & G3).
+    apply ents_vlay in G1; [|exact Hne]. destruct G1 as [G1|(t & Ht & Hmt)]; [right; exact G1|left].
+    assert (HS : ents_of (map (tbl_scan p) M) m).
+    { exists (tbl_scan p t). split; [apply in_map; exact Ht|]. apply filter_In. split; [exact Hmt|]. unfold has_prefix. rewrite G2. exact Hp. }
+    destruct HMx as (HM1 & HM2 & HM3). destruct (HM3 m HS) as (x & Hx & Hle).
+    apply tbl_get_some in Hx as [Hx1 Hx2]. destruct (Hsrc x Hx1) as (_ & t' & Ht' & Hxt').
+    assert (Hxe : ents (vlay ll M) x) by (apply ents_vlay; [exact Hne|right; exists t'; auto]).
+    assert (x = m); [|subst x; exact Hx1]. apply (LLInv_uniq _ i_ll0); auto.
+    + apply ents_vlay; [exact Hne|right; exists t; auto].
+    + specialize (G3 x Hxe ltac:(congruence)). lia.
+Qed.
+
+Lemma scan2_ok M ll sq f c p mres :
+  Inv M ll sq f c (RScan p mres) -> merge_all [mres; ll_scan_entries p ll] = tbl_scan p (view (vlay ll M)).
+Proof.
+  intros H. destruct H. pose proof (len_ne _ i_len0) as Hne. destruct i_rd0 as (Hs & HI1 & HI2).
+  pose proof (LLInv_real _ _ i_ll0 Hne) as Hreal. rewrite ll_scan_ok by exact Hreal.
+  pose proof (Mx_merge_all [mres; tbl_scan p (view ll)]) as HMx.
+  assert (Hview : forall k, tbl_get k (tbl_scan p (view (vlay ll M))) = if is_prefix p k then tbl_get k (view (vlay ll M)) else None).
+  { intros k. apply tbl_get_scan. apply merge_all_sorted. }
+  assert (Hsub : forall e, ents ll e -> ents (vlay ll M) e) by (intros e He; apply ents_vlay; [exact Hne|left; exact He]).
+  (* the members of the merge input *)
+  assert (Hsrc : forall e, ents_of [mres; tbl_scan p (view ll)] e ->
+            has_prefix p e = true /\ exists m, tbl_get (ekey e) (view (vlay ll M)) = Some m /\ eseq e <= eseq m /\ (eseq e = eseq m -> e = m)).
+  { intros e (s & [<-|[<-|[]]] & He); [apply HI1; exact He|].
+    apply filter_In in He as [He Hp]. split; [exact Hp|].
+    destruct (ents_view ll) as (_ & V2 & _). pose proof (Hsub _ (V2 _ He)) as Hev.
+    destruct (ents_view (vlay ll M)) as (_ & _ & H3). destruct (H3 e Hev) as (m & Hm & Hle). exists m. repeat split; auto.
+    intros Heq. destruct (Mx_get_spec _ _ _ _ (ents_view _) Hm) as (G1 & G2 & _). apply (LLInv_uniq _ i_ll0); auto. }
+  apply sorted_ext; [apply merge_all_sorted|apply sorted_filter, merge_all_sorted|]. intros k. rewrite Hview.
+  destruct (is_prefix p k) eqn:Hp.
+  - destruct (tbl_get k (view (vlay ll M))) as [m|] eqn:G.
+    + destruct (Mx_get_spec _ _ _ _ (ents_view _) G) as (G1 & G2 & G3).
+      assert (Hin : ents_of [mres; tbl_scan p (view ll)] m).
+      { destruct (HI2 k m Hp G) as [Hm|Hm]; [exists mres; split; [left; reflexivity|exact Hm]|].
+        exists (tbl_scan p (view ll)). split; [right; left; reflexivity|]. apply filter_In. split; [|unfold has_prefix; rewrite G2; exact Hp].
+        assert (Hg : tbl_get (ekey m) (view ll) = Some m).
+        { apply view_max; [exact Hreal|exact Hm|]. intros e He Hk. apply G3; [apply Hsub; exact He|congruence]. }
+        apply tbl_get_some in Hg. apply Hg. }
+      destruct HMx as (HM1 & HM2 & HM3). destruct (HM3 m Hin) as (x & Hx & Hle). rewrite G2 in Hx. rewrite Hx. f_equal.
+      apply tbl_get_some in Hx as [Hx1 Hx2]. destruct (Hsrc x (HM2 _ Hx1)) as (_ & m' & Hm' & Hle' & Heq').
+      rewrite Hx2, G in Hm'. injection Hm' as <-. apply Heq'. lia.
+    + eapply Mx_get_none; [exact HMx|]. intros e He Hk. destruct (Hsrc e He) as (_ & m' & Hm' & _). rewrite Hk, G in Hm'. discriminate.
+  - eapply Mx_get_none; [exact HMx|]. intros e He Hk. destruct (Hsrc e He) as (Hpe & _). unfold has_prefix in Hpe. rewrite Hk, Hp in Hpe. discriminate.
+Qed.
+
+(* ---------- the refinement ---------- *)
+
+Definition pend_of (r : rtask) : option bytes := match r with RNone => None | RGet k _ => Some k | RScan p _ => Some p end.
+
+(* what the specification demands of one observation: [m] is the map after the writes so far, [pend] the key / prefix
+   of the read in flight *)
+Definition obs_good (m : smap) (pend : option bytes) (a : act) (o : obs) : Prop :=
+  match a with
+  | AGet2 => exists k r, pend = Some k /\ o = OGet r /\ get_matches r (sm_get k m)
+  | AScan2 => exists p, pend = Some p /\ o = OScan (sm_scan p m)
+  | _ => True
+  end.
+Definition next_pend (pend : option bytes) (a : act) : option bytes :=
+  match a with AGet1 k => Some k | AScan1 p => Some p | AGet2 | AScan2 => None | _ => pend end.
+Fixpoint obs_ok (m : smap) (pend : option bytes) (acts : list act) (os : list obs) : Prop :=
+  match acts, os with
+  | [], [] => True
+  | a :: ar, o :: or => obs_good m pend a o /\ obs_ok (spec_step m a) (next_pend pend a) ar or
+  | _, _ => False
+  end.
+
+Lemma absm_sorted st : ksorted (absm st).
+Proof. unfold absm. apply kvs_sorted. apply sorted_filter. apply merge_all_sorted. Qed.
+Lemma absm_get st k : sm_get k (absm st) = vis (tbl_get k (view (vll st))).
+Proof. unfold absm. apply sm_get_live. apply merge_all_sorted. Qed.
+
+Lemma write_ok cfg st k v del st' rot :
+  DBInv st -> rd st = RNone -> (del = true -> v = []) -> write cfg st k v del = (st', rot) ->
+  DBInv st' /\ absm st' = (if del then sm_del k (absm st) else sm_put k v (absm st)) /\ rd st' = RNone.
+Proof.
+  intros HI Hrd Hv Hw. destruct st as [M ms wb ll sq fp f cp c mc r]. unfold DBInv in *. cbn in HI, Hrd. subst r.
+  pose proof (i_mts _ _ _ _ _ _ HI) as HM. pose proof (app_removelast_last [] HM) as HMeq.
+  assert (exists S actv, M = S ++ [actv]) as (S & actv & HMeq2) by (eexists _, _; exact HMeq). clear HMeq HM. subst M.
+  set (e := mkE k (sq + 1) del v).
+  assert (Hseq : eseq e = sq + 1) by reflexivity.
+  pose proof (w_inv1 S actv ll sq f c e HI Hseq) as H1. pose proof (w_inv2 S actv ll sq f c e HI Hseq) as H2.
+  pose proof (w_view1 S actv ll sq f c e HI Hseq) as Hv1. pose proof (w_view2 S actv ll sq f c e HI Hseq) as Hv2.
+  assert (Habs : forall M', view (vlay ll M') = view (vlay ll (S ++ [mt_put e actv])) ->
+            kvs (without_deletes (view (vlay ll M'))) =
+            (if del then sm_del k (kvs (without_deletes (view (vlay ll (S ++ [actv])))))
+             else sm_put k v (kvs (without_deletes (view (vlay ll (S ++ [actv]))))))).
+  { intros M' HM'. rewrite HM'.
+    assert (Hso : ksorted (kvs (without_deletes (view (vlay ll (S ++ [actv])))))) by (apply kvs_sorted, sorted_filter, merge_all_sorted).
+    apply kv_ext; [apply kvs_sorted, sorted_filter, merge_all_sorted|destruct del; [apply sm_del_sorted|apply sm_put_sorted]; exact Hso|].
+    intros k'. rewrite sm_get_live by apply merge_all_sorted. rewrite Hv1. cbn [ekey e].
+    destruct del.
+    - rewrite sm_del_get by exact Hso. rewrite sm_get_live by apply merge_all_sorted. destruct (beqb k k'); reflexivity.
+    - rewrite sm_put_get by exact Hso. rewrite sm_get_live by apply merge_all_sorted. destruct (beqb k k'); reflexivity. }
+  unfold write, active in Hw. cbn [mts msize walb lv seqn fpend ft cpend ct mcl rd] in Hw. cbv zeta in Hw.
+  rewrite !last_last, !removelast_last in Hw. fold e in Hw.
+  match type of Hw with (if ?b then _ else _) = _ => destruct b end; injection Hw as <- <-; cbn [mts lv seqn ft ct rd]; unfold absm, vll; cbn [mts lv].
+  - split; [exact H2|]. split; [apply Habs; exact Hv2|reflexivity].
+  - split; [exact H1|]. split; [apply Habs; reflexivity|reflexivity].
+Qed.
+
+Theorem step_ok cfg st a st' o :
+  cfg_ok cfg -> DBInv st -> step cfg st a = Some (st', o) ->
+  DBInv st' /\ absm st' = spec_step (absm st) a /\ obs_good (absm st) (pend_of (rd st)) a o /\
+  pend_of (rd st') = next_pend (pend_of (rd st)) a.
+Proof.
+  intros Hcfg HI Hs. destruct a; cbn [step] in Hs.
+  - (* Put *) destruct (rd st) eqn:Hrd; try discriminate. destruct (write cfg st k v false) as [s r] eqn:Hw. cbv beta iota in Hs. injection Hs as <- <-.
+    destruct (write_ok cfg st k v false s r HI Hrd ltac:(intros; discriminate) Hw) as (H1 & H2 & H3). rewrite H3. cbn. auto.
+  - (* Delete *) destruct (rd st) eqn:Hrd; try discriminate. destruct (write cfg st k [] true) as [s r] eqn:Hw. cbv beta iota in Hs. injection Hs as <- <-.
+    destruct (write_ok cfg st k [] true s r HI Hrd ltac:(intros; reflexivity) Hw) as (H1 & H2 & H3). rewrite H3. cbn. auto.
+  - (* Get1 *) destruct (rd st) eqn:Hrd; try discriminate. injection Hs as <- <-.
+    destruct st as [M ms wb ll sq fp f cp c mc r]. unfold DBInv, absm, vll in *. cbn in *. subst r.
+    split; [apply get1_inv; exact HI|auto].
+  - (* Get2 *) destruct (rd st) as [|k0 m0|] eqn:Hrd; try discriminate. injection Hs as <- <-.
+    destruct st as [M ms wb ll sq fp f cp c mc r]. unfold DBInv in *. cbn in HI, Hrd. subst r.
+    split; [unfold DBInv; cbn; apply (set_rd_inv _ _ _ _ _ (RGet k0 m0)); [exact I|exact HI]|].
+    split; [reflexivity|]. split; [|reflexivity]. cbn [obs_good rd pend_of]. exists k0, (to_getres (match m0 with Some e => Some e | None => ll_get k0 ll end)).
+    split; [reflexivity|]. split; [reflexivity|]. rewrite absm_get. unfold vll. cbn [mts lv].
+    rewrite (get2_ok _ _ _ _ _ _ _ HI). apply to_getres_matches.
+  - (* Scan1 *) destruct (rd st) eqn:Hrd; try discriminate. injection Hs as <- <-.
+    destruct st as [M ms wb ll sq fp f cp c mc r]. unfold DBInv, absm, vll in *. cbn in *. subst r.
+    split; [apply scan1_inv; exact HI|auto].
+  - (* Scan2 *) destruct (rd st) as [| |p0 m0] eqn:Hrd; try discriminate. injection Hs as <- <-.
+    destruct st as [M ms wb ll sq fp f cp c mc r]. unfold DBInv in *. cbn in HI, Hrd. subst r.
+    split; [unfold DBInv; cbn; apply (set_rd_inv _ _ _ _ _ (RScan p0 m0)); [exact I|exact HI]|].
+    split; [reflexivity|]. split; [|reflexivity]. cbn [obs_good rd pend_of]. exists p0. split; [reflexivity|]. f_equal.
+    cbn [lv]. change (merge_into m0 (merge_into (ll_scan_entries p0 ll) [])) with (merge_all [m0; ll_scan_entries p0 ll]).
+    rewrite (scan2_ok _ _ _ _ _ _ _ HI). unfold absm, vll. cbn [mts lv]. rewrite sm_scan_live. reflexivity.
+  - (* F1 *) destruct st as [M ms wb ll sq fp f cp c mc r]. cbn in Hs. destruct f; try discriminate. destruct fp as [|n]; try discriminate.
+    injection Hs as <- <-. unfold DBInv, absm, vll in *. cbn in *. split; [apply f1_inv; exact HI|auto].
+  - (* F2 *) destruct st as [M ms wb ll sq fp f cp c mc r]. cbn [step ft] in Hs. destruct f as [|snap]; try discriminate.
+    injection Hs as <- <-. unfold DBInv, absm, vll in *. cbn [mts lv seqn ft ct rd fpend cpend msize walb mcl] in *.
+    destruct (i_ft _ _ _ _ _ _ HI snap eq_refl) as (rest & HM & Hrest). subst M.
+    assert (Hsk : skipn (length snap) (snap ++ rest) = rest) by (rewrite skipn_app, Nat.sub_diag, skipn_all; reflexivity).
+    rewrite Hsk. split; [apply f2_inv; assumption|]. rewrite vlay_add_l0 by (apply len_ne; apply (i_len _ _ _ _ _ _ HI)).
+    split; [reflexivity|]. split; [exact I|reflexivity].
+  - (* C1 *) destruct st as [M ms wb ll sq fp f cp c mc r]. cbn in Hs.
+    assert (Hrun : forall n, (c = CIdle \/ c = CIter) ->
+              (let '(ocs, m) := compact table_size (d_comp cfg) mc ll in
+               Some (mkDb M ms wb ll sq fp f n (match ocs with Some cs => CSwap cs | None => CIdle end) m r,
+                     OComp (match ocs with Some _ => true | None => false end))) = Some (st', o) ->
+              DBInv st' /\ absm st' = absm (mkDb M ms wb ll sq fp f cp c mc r) /\ rd st' = r).
+    { intros n Hc Hr. destruct (compact table_size (d_comp cfg) mc ll) as [[cs|] m] eqn:Hcomp; injection Hr as <- <-;
+        unfold DBInv, absm, vll in *; cbn in *.
+      - split; [eapply c1_inv; eauto|auto].
+      - split; [eapply c_idle_inv; [|exact HI]; discriminate|auto]. }
+    assert (Hres : DBInv st' /\ absm st' = absm (mkDb M ms wb ll sq fp f cp c mc r) /\ rd st' = r).
+    { destruct c as [| |cs]; [destruct cp as [|n]; [discriminate|]| |discriminate]; eapply Hrun; eauto. }
+    destruct Hres as (H1 & H2 & H3). rewrite H3. cbn. auto.
+  - (* C2 *) destruct st as [M ms wb ll sq fp f cp c mc r]. cbn [step ct] in Hs. destruct c as [| |cs]; try discriminate.
+    injection Hs as <- <-. unfold DBInv, absm, vll in *. cbn [mts lv seqn ft ct rd fpend cpend msize walb mcl] in *.
+    destruct (c2_inv _ _ _ _ _ _ HI) as [H1 H2].
+    split; [exact H1|]. rewrite H2. split; [reflexivity|]. split; [exact I|reflexivity].
+Qed.
+
+Theorem run_refines cfg :
+  cfg_ok cfg -> forall acts st st' os, DBInv st -> run cfg st acts = Some (st', os) ->
+  obs_ok (absm st) (pend_of (rd st)) acts os /\ DBInv st'.
+Proof.
+  intros Hcfg. induction acts as [|a acts IH]; intros st st' os HI Hr; cbn [run] in Hr.
+  - injection Hr as <- <-. split; [exact I|exact HI].
+  - destruct (step cfg st a) as [[s1 o]|] eqn:Hs; [|discriminate].
+    destruct (run cfg s1 acts) as [[s2 os']|] eqn:Hr'; [|discriminate]. injection Hr as <- <-.
+    destruct (step_ok _ _ _ _ _ Hcfg HI Hs) as (H1 & H2 & H3 & H4). destruct (IH _ _ _ H1 Hr') as [H5 H6].
+    split; [|exact H6]. cbn [obs_ok]. split; [exact H3|]. rewrite <- H2, <- H4. exact H5.
+Qed.
+
+Lemma absm_init cfg : cfg_ok cfg -> absm (init cfg) = [].
+Proof.
+  intros Hcfg. unfold absm. pose proof (init_inv cfg Hcfg) as HI. unfold DBInv in HI.
+  assert (view (vll (init cfg)) = []); [|rewrite H; reflexivity].
+  destruct (view (vll (init cfg))) as [|e t] eqn:E; [reflexivity|exfalso].
+  destruct (ents_view (vll (init cfg))) as (_ & H2 & _). rewrite E in H2. specialize (H2 e (or_introl eq_refl)).
+  pose proof (i_seq _ _ _ _ _ _ HI e H2) as Hs. cbn in Hs.
+  (* every entry of the initial layout would have to sit in an empty table *)
+  unfold vll, init in H2. cbn in H2. apply ents_vlay in H2.
+  - destruct H2 as [(l & t' & Hl & Ht & _)|(t' & [<-|[]] & He)]; [|destruct He]. apply repeat_spec in Hl. subst l. destruct Ht.
+  - apply len_ne. rewrite repeat_length. apply Hcfg.
+Qed.
+
+(* C07, main statement: every history of the DB state machine from the initial state, with any interleaving of the
+   background half-steps and for every option setting, shows exactly the reads of the sorted map *)
+Theorem dkv_refines_map_proof cfg acts st os :
+  cfg_ok cfg -> run cfg (init cfg) acts = Some (st, os) -> obs_ok [] None acts os.
+Proof.
+  intros Hcfg Hr. destruct (run_refines cfg Hcfg acts _ _ _ (init_inv cfg Hcfg) Hr) as [H _].
+  rewrite absm_init in H by exact Hcfg. exact H.
+Qed.
